@@ -97,7 +97,7 @@ def analyse0(tok, p=0):
         a, Hh, W, C, F, fh_, fw, pad = [I(i) for i in range(1, 9)]
         s.np = F * fh_ * fw * C + F; s.nin = Hh * W * C
         s.nout = (Hh * W * F) if pad else ((Hh - fh_ + 1) * (W - fw + 1) * F); s.exact = a in (0, 1)
-        s.name = "Conv2DModel<%s>" % ACT[a]
+        s.name = "Conv2DModel<%s>" % ACT[a]; s.modelled = True
         s.shape = "%s %s filter=%s%s" % ("channels>1" if C > 1 else "channels=1", "filters>1" if F > 1 else "filters=1",
                                           "even" if (fh_ % 2 == 0 or fw % 2 == 0) else "odd", " zeropad" if pad else " valid")
         s.detail = "image %dx%dx%d filters %dx(%dx%d)" % (Hh, W, C, F, fh_, fw); s.convs = [s.shape]
@@ -219,6 +219,22 @@ def gen_conv(rng):
     spec, _ = conv_spec(rng)
     return mk(rng, spec, B=rng.choice([1, 2, 3]), pspan=4, xspan=4, tag="conv")
 
+def gen_conv_edge(rng):
+    """Conv2DModel streams aimed at the case splits of the index arithmetic: 1x1 image, filter as large as (or, zero padded, larger than)
+    the image, even filter sizes (2, 4: extra row/column of the backprop filters), one-sided filters (1xk, kx1), channels and filters > 1"""
+    r = rng.randrange(6); a = rng.choice([0, 0, 0, 1]); C = rng.choice([1, 2, 3]); F = rng.choice([1, 2, 3]); pad = rng.randint(0, 1)
+    if r == 0: Hh = W = 1; fh_ = fw = 1 if not pad else rng.randint(1, 3)
+    elif r == 1: Hh = rng.randint(1, 4); W = rng.randint(1, 4); fh_, fw = Hh, W
+    elif r == 2: Hh = rng.randint(2, 5); W = rng.randint(2, 5); fh_ = rng.choice([e for e in (2, 4) if e <= Hh]); fw = rng.choice([e for e in (1, 2, 3, 4) if e <= W])
+    elif r == 3: Hh = rng.randint(1, 5); W = rng.randint(1, 5); fh_, fw = rng.choice([(1, rng.randint(1, W)), (rng.randint(1, Hh), 1)])
+    elif r == 4: Hh = rng.randint(1, 3); W = rng.randint(1, 3); pad = 1; fh_ = Hh + rng.randint(0, 2); fw = W + rng.randint(0, 2)
+    else: Hh = rng.randint(2, 4); W = rng.randint(2, 4); C = rng.choice([2, 3]); F = rng.choice([2, 3]); fh_ = rng.randint(1, Hh); fw = rng.randint(1, W)
+    spec = "CONV %d %d %d %d %d %d %d %d" % (a, Hh, W, C, F, fh_, fw, pad)
+    c = mk(rng, spec, B=rng.choice([1, 2, 3]), pspan=4, xspan=4, tag="conv-edge")
+    if rng.random() < 0.5:       # integer stream
+        c.params = [float(rng.randint(-3, 3)) for _ in c.params]; c.X = [[float(rng.randint(-3, 3)) for _ in r_] for r_ in c.X]
+    return c
+
 def gen_pool(rng):
     ph, pw = rng.randint(1, 3), rng.randint(1, 3); Hh = rng.randint(ph, 6); W = rng.randint(pw, 6); C = rng.choice([1, 2, 3])
     c = mk(rng, "POOL %d %d %d %d %d" % (Hh, W, C, ph, pw), B=rng.choice([1, 2, 3]), xden=8, xspan=60, tag="pool")
@@ -288,7 +304,7 @@ def gen_cls(rng):
     X = [[float(rng.randint(-2, 2)) for _ in range(ni)] for _ in range(rng.randint(1, 5))]
     return Case(spec, params, X, None, "cls")
 
-GENS = [(gen_lin, 7), (gen_net, 5), (gen_neu, 2), (gen_nrm, 1), (gen_conv, 4), (gen_pool, 2), (gen_resize, 2), (gen_rbf, 2), (gen_cmac, 2),
+GENS = [(gen_lin, 7), (gen_net, 5), (gen_neu, 2), (gen_nrm, 1), (gen_conv, 4), (gen_conv_edge, 4), (gen_pool, 2), (gen_resize, 2), (gen_rbf, 2), (gen_cmac, 2),
         (gen_kexp, 2), (gen_ens, 2), (gen_netx, 5), (gen_cls, 3)]
 
 def gen_cases(rng, n):
